@@ -79,6 +79,9 @@ def _iops():
 
     ops["delete"] = (["a", "b"], None, dele)
     ops["new"] = ([], None, lambda t, o: t.new())
+    # new() with a span of the caller's choice and the tier's own entries: the constructor widens it to cover them
+    ops["new-span"] = (["a", "b"], None, lambda t, o, a, b: t.new(minTimestamp=a, maxTimestamp=b))
+    ops["new-name-max"] = (["a"], None, lambda t, o, a: t.new("renamed", None, None, a))
     return ops
 
 
@@ -211,6 +214,7 @@ def _pops():
 
     ops["delete"] = (["a"], dele)
     ops["new"] = ([], lambda t, o: t.new())
+    ops["new-span"] = (["a", "b"], lambda t, o, a, b: t.new(minTimestamp=a, maxTimestamp=b))
     return ops
 
 
